@@ -4,7 +4,7 @@ C16 — structure files round-trip: what is written is read back.
 Layer "fields": product of field-boundary menus (residue numbers around the column widths,
          names of length 1..6, chain present/absent, coordinates across the representable range
          and beyond) on small two-molecule systems, written as PDB and GRO and read back.
-Layer "counts": atom counts 1, 2, 9998..10001 (thorough: 9997..10001 with every bond pattern, 99999 and 100000 with five) arranged as 1, 2 or 3
+Layer "counts": atom counts 1, 2, 9998..10001 (thorough: 9997..10001 with every bond pattern, 99996..99998 - the last systems that fit five-digit serials - with five) arranged as 1, 2 or 3
          molecules x bond patterns (none, path, stars of degree 1..9, bonds straddling serial
          9999/10000, first-last), PDB CONECT/TER round trip.
 Oracle : read-back record i equals written record i on every field, each field judged by its OWN
@@ -389,19 +389,19 @@ def field_cases(tier):
 def count_cases(tier):
     counts = [1, 2, 3, 12, 9998, 10000, 10001]
     if tier != 'quick':
-        counts = [1, 2, 3, 12, 9997, 9998, 9999, 10000, 10001, 99999, 100000]
+        counts = [1, 2, 3, 12, 9997, 9998, 9999, 10000, 10001, 99996, 99997, 99998]
     cases = []
     for n in counts:
         for sizes in splits(n):
             pats = bond_patterns(n, sizes)
             names = list(pats)
-            if (tier == 'quick' and n >= 9997) or n >= 99997:
+            if (tier == 'quick' and n >= 9997) or n >= 99996:
                 # the 10^5-atom systems take minutes each: the reduced pattern menu there, the full one around 10^4 (thorough)
                 if len(sizes) == 3 and sizes[0] != 1:
                     continue
                 names = [p for p in names if p in ('none', 'path', 'tail-pairs', 'first-last-of-last-mol', 'star5-last-mol')]
-            if n in (99997, 99998):
-                continue
+            if n + len(sizes) > 99999:
+                continue        # beyond the five-digit serial numbering (every TER takes a serial too): outside the quantifier
             for pattern in names:
                 cases.append({'n': n, 'sizes': sizes, 'pattern': pattern})
     return cases
@@ -409,7 +409,7 @@ def count_cases(tier):
 
 def run(ctx):
     ctx.bound = {'resids': RESIDS, 'coords': COORDS, 'name_lengths': '1..6',
-                 'atom_counts': '1,2,3,12,9997..10001' + ('' if ctx.quick else ',99997..100000')}
+                 'atom_counts': '1,2,3,12,9997..10001' + ('' if ctx.quick else ',99996..99998 (last serial <= 99999)')}
     fc = field_cases(ctx.tier)
     acc = Acc()
     for part in common.pmap(work, [('fields', chunk) for chunk in common.chunked(fc, max(1, len(fc) // 48))]):
